@@ -69,6 +69,23 @@ def all_exited(processes):
     return True
 
 
+def abort_if_one_failed(processes):
+    """
+    Abort the run as soon as one process ended with a non-zero exit code (e.g. killed by the system).
+    The remaining processes can be blocked forever on the shared queue (if the dead process held
+    its lock), so they are terminated instead of waited for.
+    """
+    for p in processes:
+        if p.exitcode is not None and p.exitcode != 0:
+            logger.error(
+                "One of the processes had a none-zero exit code. One reason could be that one of the processes consumed too much memory and was killed"
+            )
+            for other in processes:
+                if other.is_alive():
+                    other.terminate()
+            sys.exit(1)
+
+
 def run_realign(gaf, graph, fasta, output=None, cores=1):
     timers = StageTimer()
 
@@ -208,6 +225,7 @@ def realign_gaf(gaf, graph, fasta, output, cores=1):
                     out_string_obj = align_queue.get(timeout=0.5)
                 except queue.Empty:  # queue throws Empty exception after timeout
                     # check if all threads are still alive
+                    abort_if_one_failed(processes)
                     if one_is_alive(processes):
                         continue
                     else:
@@ -257,6 +275,7 @@ def realign_gaf(gaf, graph, fasta, output, cores=1):
                 out_string_obj = align_queue.get(timeout=0.1)
             except queue.Empty:
                 # check if all threads are still alive
+                abort_if_one_failed(processes)
                 if one_is_alive(processes):
                     continue
                 else:
